@@ -18,7 +18,7 @@ CLAIMED = {
          "DESIGN.md §4 C02"),
  "C03": ("spec/HclDec.tla (MC_Dec)",
          "TLC enumerates (decoding spec, body) pairs with the JsonExpressible predicate; each pair is rendered in native syntax and 4 admissible JSON encodings and decoded by the real hcldec; results compared differentially (and against HclDec.tla via C08)",
-         "All well-formed spec trees (17 kinds) of depth <= 1 x bodies <= 2 items and depth <= 2 x bodies <= 1 item (quick; thorough: depth 2 x 2 items, depth 1 x 3 items); JSON forms: duplicate property names, arrays of block bodies, top-level array of objects, merged label objects with // comments. Same error-ness, RawEquals decoded values, same Content projection.",
+         "All well-formed spec trees (17 kinds) of depth <= 1 x bodies <= 2 items and depth <= 2 x bodies <= 1 item (quick; thorough: depth 2 x 2 items); JSON forms: duplicate property names, arrays of block bodies, top-level array of objects, merged label objects with // comments. Same error-ness, RawEquals decoded values, same Content projection.",
          "Only JSON-expressible bodies (label counts as requested by the spec) are compared; attribute values are literals of every JSON-expressible type.",
          "DESIGN.md §4 C03"),
  "C04": ("spec/HclBody.tla (MC_C04)",
@@ -78,7 +78,7 @@ CLAIMED = {
          "DESIGN.md §4 C14"),
  "C15": ("spec/MC_C15.tla (HclDamage over MC_E1)",
          "TLC enumerates base programs x damage operations (insert/replace/delete/truncate with a 47-token damage alphabet); every damaged input is fed to all 9 parsing entry points, twice, under a watchdog; results, diagnostics and follow-up schema application/evaluation are checked",
-         "Quick: 146 base ASTs covering every production x 6 positions x 4 damage kinds x 47 tokens (84 k inputs x 3 embeddings); thorough: all 7.7 k depth-1 ASTs x 12 positions (8.9 M). No panic, no hang, deterministic, non-nil result or error diagnostics, diagnostics with severity, summary and in-bounds ranges; partial bodies accept schemas without panic.",
+         "Quick: 146 base ASTs covering every production x 6 positions x 4 damage kinds x 47 tokens (84 k inputs x 3 embeddings); thorough: ~1000 base ASTs x 12 positions (1-2 M). No panic, no hang, deterministic, non-nil result or error diagnostics, diagnostics with severity, summary and in-bounds ranges; partial bodies accept schemas without panic.",
          "Single damages on grammar-derived inputs (MaxK=1); the peeker protocol trace validation (Peeker.tla) is planned on top of this.",
          "DESIGN.md §4 C15"),
  "C16": ("spec/GoHcl.tla (MC_C16) + MC_Dec bodies",
